@@ -3,6 +3,7 @@ import ast
 import z3
 
 from .values import (
+    KDict,
     is_enum, mk_enum, enum_map, enum_eq, enum_less,
     Sym, Struct, PList, PDict, PSet, Inst, SymSeq, SymSet, SymMap, FuncRef,
     ClassRef, ExtRef, BoundMethod, LambdaVal, PyFunc, Unsupported, term, wrap,
@@ -423,6 +424,64 @@ class CompVal:
 
 
 # ---------------------------------------------------------------------------
+# dicts with symbolic keys
+# ---------------------------------------------------------------------------
+
+def morph_to_kdict(d):
+    """an empty dict literal that receives a symbolic object as key becomes
+    a symbolic-key dict (same object: aliases stay valid)"""
+    d.__class__ = KDict
+    d.pairs = []
+
+
+def kd_find(ip, d, key):
+    """position of key in the KDict or None (decides key equalities)"""
+    for n, (k, _v) in enumerate(d.pairs):
+        if ip.vc.decide(ip.values_eq(key, k)):
+            return n
+    return None
+
+
+def kd_set(ip, d, key, v):
+    n = kd_find(ip, d, key)
+    if n is None:
+        d.pairs.append((key, v))
+    else:
+        d.pairs[n] = (d.pairs[n][0], v)
+
+
+def kdict_method(ip, d, name, args, kwargs):
+    if name == "items":
+        return PList([(k, v) for k, v in d.pairs])
+    if name == "keys":
+        return PList([k for k, _ in d.pairs])
+    if name == "values":
+        return PList([v for _, v in d.pairs])
+    if name == "get":
+        n = kd_find(ip, d, args[0])
+        if n is None:
+            return args[1] if len(args) > 1 else None
+        return d.pairs[n][1]
+    if name == "copy":
+        return KDict(d.pairs)
+    if name == "update":
+        other = args[0]
+        items = other.pairs if isinstance(other, KDict) else \
+            ([(k, v) for k, v in other.d.items()] if isinstance(other, PDict) else ip.iterate_concrete(other))
+        for k, v in items:
+            kd_set(ip, d, k, v)
+        return None
+    if name == "pop":
+        n = kd_find(ip, d, args[0])
+        if n is None:
+            if len(args) > 1:
+                return args[1]
+            raise RaiseEx("KeyError", "pop")
+        return d.pairs.pop(n)[1]
+    raise Unsupported(f"dict.{name} on a symbolic-key dict")
+
+
+# ---------------------------------------------------------------------------
 # subscripts
 # ---------------------------------------------------------------------------
 
@@ -501,6 +560,11 @@ def subscript(ip, obj, idx):
             val = vc.concretize(idx.t, list(range(-n, n)))
             return items[val]
         raise RaiseEx("TypeError", "sequence index")
+    if isinstance(obj, KDict):
+        n = kd_find(ip, obj, idx)
+        if n is None:
+            raise RaiseEx("KeyError", "symbolic key")
+        return obj.pairs[n][1]
     if isinstance(obj, PDict):
         if not isinstance(idx, Sym):
             k = ip.hashable(idx)
@@ -558,6 +622,13 @@ def store_subscript(ip, obj, idx, v):
         val = vc.concretize(term(idx), list(range(-n, n)))
         obj.items[val] = v
         return
+    if isinstance(obj, KDict):
+        kd_set(ip, obj, idx, v)
+        return
+    if isinstance(obj, PDict) and isinstance(idx, Sym) and idx.schema and not obj.d:
+        morph_to_kdict(obj)
+        kd_set(ip, obj, idx, v)
+        return
     if isinstance(obj, PDict):
         if isinstance(idx, Sym):
             for k in list(obj.d):
@@ -592,6 +663,12 @@ def store_subscript(ip, obj, idx, v):
 
 
 def delete_subscript(ip, obj, idx):
+    if isinstance(obj, KDict):
+        n = kd_find(ip, obj, idx)
+        if n is None:
+            raise RaiseEx("KeyError", "del")
+        del obj.pairs[n]
+        return
     if isinstance(obj, PDict) and not isinstance(idx, Sym):
         k = ip.hashable(idx)
         if k not in obj.d:
@@ -688,7 +765,7 @@ def get_attribute(ip, obj, name):
         if dotted in C.EXTERNALS and not callable(C.EXTERNALS[dotted]):
             return C.EXTERNALS[dotted]
         return ExtRef(dotted)
-    if isinstance(obj, (PList, PDict, PSet, SymSeq, SymSet, SymMap, str, tuple)):
+    if isinstance(obj, (PList, PDict, KDict, PSet, SymSeq, SymSet, SymMap, str, tuple)):
         return BoundMethod(obj, name)
     if isinstance(obj, Sym):
         return BoundMethod(obj, name)
@@ -708,6 +785,8 @@ def call_method(ip, obj, name, args, kwargs):
     args = [vc.concretize(x) if is_enum(x) and isinstance(obj, str) else x for x in args]
     if isinstance(obj, PList):
         return plist_method(ip, obj, name, args, kwargs)
+    if isinstance(obj, KDict):
+        return kdict_method(ip, obj, name, args, kwargs)
     if isinstance(obj, PDict):
         return pdict_method(ip, obj, name, args, kwargs)
     if isinstance(obj, PSet):
@@ -830,6 +909,9 @@ def pdict_method(ip, obj, name, args, kwargs):
     if name == "copy":
         return PDict(d)
     if name == "update":
+        if args and isinstance(args[0], KDict) and not d:
+            morph_to_kdict(obj)
+            return kdict_method(ip, obj, "update", args, kwargs)
         if args:
             other = args[0]
             if isinstance(other, PDict):
@@ -1020,6 +1102,8 @@ def b_len(ip, args, kwargs):
         return len(v.items)
     if isinstance(v, PDict):
         return len(v.d)
+    if isinstance(v, KDict):
+        return len(v.pairs)
     if isinstance(v, PSet):
         if any(isinstance(x, Sym) for x in v.items):
             # elements were added only when provably/decidedly distinct
